@@ -1134,6 +1134,7 @@ func (tx *FnTx) enterLoop(li *loopInfo, pre *State) *State {
 	if (li.spec == nil || !li.spec.HasMod) && tx.loopWritesHeap(li) {
 		// no modifies clause: everything on the heap is unknown at the loop head
 		head = tx.h.havocAll(pre)
+		tx.assume("(>= " + head.alloc + " " + pre.alloc + ")")
 		li.havocAll = true
 		// private map objects keep their content unless the loop body itself updates maps of that type
 		mutated := map[string]bool{}
@@ -1353,6 +1354,7 @@ func privateMapObject(fn *ssa.Function, idx int) *types.Map {
 // havocAllP: havoc of everything an unknown callee may touch; private map objects keep their content.
 func (tx *FnTx) havocAllP(st *State) *State {
 	n := tx.h.havocAll(st)
+	tx.assume("(>= " + n.alloc + " " + st.alloc + ")") // the allocation counter only grows
 	tx.protectPrivate(st, n, nil)
 	return n
 }
@@ -1368,6 +1370,22 @@ func (tx *FnTx) protectPrivate(old, n *State, skipTypes map[string]bool) {
 			n.heaps[c.Name] = sapp("store", tx.h.heapTerm(n, c), ref, sapp("select", tx.h.heapTerm(old, c), ref))
 		}
 	}
+}
+
+// loopAllocAt: allocation counter at the head of the innermost loop containing block b ("" if none).
+func (tx *FnTx) loopAllocAt(b *ssa.BasicBlock) string {
+	var best *loopInfo
+	for _, li := range tx.loops {
+		if li.body[b] && li.head != nil {
+			if best == nil || len(li.body) < len(best.body) {
+				best = li
+			}
+		}
+	}
+	if best == nil {
+		return ""
+	}
+	return best.head.alloc
 }
 
 // loopWritesHeap: does the loop body contain an instruction that may write non-local memory?
